@@ -46,6 +46,9 @@ def check_chunk(chunk):
     return ChunkResult(n, distinct, list(fails.values()), samples=[chunk["items"][0]], extra=counts)
 
 
+REGRESSION = [{"features": ["flat", "merge_flat"]}, {"features": ["nested", "merge_flat"]}]
+
+
 def programs(tier):
     names = list(_cwl.FEATURES)
     progs = [{"features": [f]} for f in names]
@@ -59,6 +62,8 @@ def programs(tier):
         reps["when"] = "when_false"
         r = list(reps.values())
         progs += [{"features": [a, b]} for a, b in itertools.product(r, repeat=2) if a != b][::3]
+        # pairs behind repaired defects stay in the quick tier
+        progs += [p for p in REGRESSION if p not in progs]
     else:
         # two representatives per feature class: all ordered pairs of them; all triples of 6 representatives
         two = {}
